@@ -3,7 +3,7 @@ package quic
 //vx:pkg github.com/refraction-networking/uquic
 //vx:entry Harness_C03_stream
 //vx:param quick steps=3 maxlen=3000 maxread=3000
-//vx:param thorough steps=4 maxlen=3000 maxread=3000
+//vx:param thorough steps=3 maxlen=6000 maxread=6000
 //vx:reach Harness_C03_stream C03.s.read-data C03.s.eof C03.s.deadline C03.s.final-size-error C03.s.flow-control-error C03.s.reset-error C03.s.reset
 
 import (
